@@ -52,27 +52,32 @@ func H_Fit() {
 		minX, minY, maxX, maxY = v.AspectMeet(dx, dy, ax, ay)
 	}
 	vp.Reach("fitted")
+	// the checks are written in float64 so that the native evaluation (replay) stays
+	// faithful when products of two float32 magnitudes leave the float32 range; in the
+	// exact-real reading the conversions and the arithmetic below are exact
 	vp.ExactBegin()
-	W, H := maxX-minX, maxY-minY
+	x0, y0, x1, y1 := float64(minX), float64(minY), float64(maxX), float64(maxY)
+	Dx, Dy, Vw, Vh := float64(dx), float64(dy), float64(vw), float64(vh)
+	W, H := x1-x0, y1-y0
 	// tolerance: float32 rounding relative to the size of target and result
 	// (a sum instead of a maximum keeps the obligation free of case splits)
-	e := tol * (dx + dy + W + H)
+	e := tol * (Dx + Dy + W + H)
 	// aspect: the result is the target in one dimension and the target scaled by the
 	// viewBox's aspect ratio in the other (H = dx*vh/vw, written without division)
-	A := vp.All(W-dx <= e, dx-W <= e, H*vw-dx*vh <= e*vw, dx*vh-H*vw <= e*vw)
-	B := vp.All(H-dy <= e, dy-H <= e, W*vh-dy*vw <= e*vh, dy*vw-W*vh <= e*vh)
+	A := vp.All(W-Dx <= e, Dx-W <= e, H*Vw-Dx*Vh <= e*Vw, Dx*Vh-H*Vw <= e*Vw)
+	B := vp.All(H-Dy <= e, Dy-H <= e, W*Vh-Dy*Vw <= e*Vh, Dy*Vw-W*Vh <= e*Vh)
 	vp.Check(vp.Or(A, B), "result equals the target in one dimension and has the viewBox's aspect ratio")
 	if slice {
-		vp.Check(vp.And(W >= dx-e, H >= dy-e), "slice: result covers the target")
-		vp.Check(vp.And(minX <= e, minY <= e), "slice: result starts at or before the target's origin")
-		vp.Check(vp.And(maxX >= dx-e, maxY >= dy-e), "slice: result ends at or after the target's far edge")
+		vp.Check(vp.And(W >= Dx-e, H >= Dy-e), "slice: result covers the target")
+		vp.Check(vp.And(x0 <= e, y0 <= e), "slice: result starts at or before the target's origin")
+		vp.Check(vp.And(x1 >= Dx-e, y1 >= Dy-e), "slice: result ends at or after the target's far edge")
 	} else {
-		vp.Check(vp.And(W <= dx+e, H <= dy+e), "meet: result fits inside the target")
-		vp.Check(vp.And(minX >= -e, minY >= -e), "meet: result starts inside the target")
-		vp.Check(vp.And(maxX <= dx+e, maxY <= dy+e), "meet: result ends inside the target")
+		vp.Check(vp.And(W <= Dx+e, H <= Dy+e), "meet: result fits inside the target")
+		vp.Check(vp.And(x0 >= -e, y0 >= -e), "meet: result starts inside the target")
+		vp.Check(vp.And(x1 <= Dx+e, y1 <= Dy+e), "meet: result ends inside the target")
 	}
 	// placement: the slack (or overflow) is divided according to the alignment
-	px, py := minX-(dx-W)*ax, minY-(dy-H)*ay
+	px, py := x0-(Dx-W)*float64(ax), y0-(Dy-H)*float64(ay)
 	vp.Check(vp.And(px <= e, -px <= e), "x placement: Min = slack * ax (0 aligns minima, 1/2 centres, 1 aligns maxima)")
 	vp.Check(vp.And(py <= e, -py <= e), "y placement: Min = slack * ay")
 	vp.ExactEnd()
